@@ -42,6 +42,7 @@ type failoverStatus struct {
 	failover  failover
 	timer     *time.Timer
 	witnesses map[string]struct{}
+	failing   bool // a quorum was reached and the failover has been started
 }
 
 func newFailoverStatus(f failover) *failoverStatus {
@@ -59,9 +60,17 @@ func (f *failoverStatus) report(ctx context.Context, witness string) *status.Sta
 	f.mu.Lock()
 
 	f.witnesses[witness] = struct{}{}
+	if f.failing {
+		// The failover these witnesses asked for is already under way. Reports
+		// that arrive while it runs (all followers of a dead leader time out
+		// at about the same time) must not start it a second time.
+		f.mu.Unlock()
+		return nil
+	}
 	leaderFailed := len(f.witnesses) > f.failover.Quorum()
 
 	if leaderFailed {
+		f.failing = true
 		if f.timer != nil {
 			f.timer.Stop()
 		}
